@@ -359,6 +359,11 @@ fn nesting_shapes() -> Vec<(&'static str, &'static str, &'static str)> {
         ("nested_drop", "var v = []; for i in 0..@N@ { v = [v]; }", "v = nil; var g = [[1], [2]]; print(g);"),
         ("nested_fiber_chain", "var v = Fiber.new(|| 0); for i in 0..@N@ { var prev = v; v = Fiber.new(|| prev); }", "print(type(v));"),
         ("nested_iterators", "var v = [1].iter(); for i in 0..@N@ { v = v.map(|e| e); }", "print(type(v));"),
+        // chains of *small* objects (a pair, a tuple iterator over a one-element tuple, a bound method of the
+        // previous link): whatever the collector does differently for small objects, it does at every link
+        ("chain_of_pairs", "var v = nil; for i in 0..@N@ { v = (i, v); }", "var n = 0; var p = v; while p != nil { n += 1; p = p[1]; } print(n);"),
+        ("chain_of_tuple_iterators", "var v = (1,).iter(); for i in 0..@N@ { v = (v,).iter(); }", "print(type(v));"),
+        ("chain_of_bound_methods", "var v = [1].len; for i in 0..@N@ { v = [v].len; }", "print(type(v));"),
     ]
 }
 
@@ -669,6 +674,17 @@ fn deep_nesting_cases(thorough: bool) -> Vec<Case> {
     for n in depths {
         for (what, build, use_) in nesting_shapes() {
             if what == "nested_fiber_chain" {
+                continue;
+            }
+            let src = format!("{}\n{}\nprint(\"end\");\n", build.replace("@N@", &n.to_string()), use_);
+            out.push(Case { family: "resource_deep_nesting_on_an_ordinary_stack", cell: format!("{} depth {}", what, n), source: src, derived_receiver: false, raw: false });
+        }
+    }
+    // the shapes that only the collector (and dropping) walks, two and four million links long: nothing of
+    // that may depend on the host stack
+    for n in if thorough { vec![2_000_000usize, 4_000_000] } else { vec![2_000_000usize] } {
+        for (what, build, use_) in nesting_shapes() {
+            if !(what.starts_with("chain_of_") || (thorough && ["nested_instances", "nested_closures", "nested_drop"].contains(&what))) {
                 continue;
             }
             let src = format!("{}\n{}\nprint(\"end\");\n", build.replace("@N@", &n.to_string()), use_);
